@@ -6,7 +6,7 @@
     cache on the same final files and options."
 
    A history is ANY finite list of (file-system state, options) pairs: every kind of edit is a transition
-   between two such states (`edit` below names them).  mypy is run after every edit; `runs` threads
+   between two such states (`edit` below names them).  mypy is run after every edit (a run may be aborted by a blocking error: output None); `runs` threads
    the cache through.  The statement is about the protocol; the analysis itself is the abstract
    `check`/`analyze` (contract in Proofs.v), hashes are identities, and a file's content is a function of its
    logical version (path, mtime, size). *)
@@ -17,10 +17,13 @@ Import ListNotations.
 Section Statement.
   Variable content_of : modid -> stamp -> content.
   Variable imports : modid -> content -> opts -> list modid.
+  Variable probes : modid -> content -> opts -> list modid.
   Variable analyze : list modid -> (modid -> content) -> opts -> (modid -> option ihash) -> modid -> result.
   Variable sccs_of : list (modid * list modid) -> list (list modid).
   Variable reach : list (modid * list modid) -> modid -> modid -> bool.
   Variable sdo_of : list modid -> opts -> nat.
+  Variable ign_of : modid -> stamp -> opts -> bool.
+  Variable blocker : modid -> content -> bool.
 
   Definition FSOK (fs : FS) : Prop := NoDup (map fst fs).
 
@@ -28,9 +31,9 @@ Section Statement.
   Definition warm_equals_cold_for_all_histories : Prop :=
     forall (h : list (FS * opts)) (fs : FS) (o : opts) (n n' : nat),
       (forall fs' o', In (fs', o') h -> FSOK fs') -> FSOK fs ->
-      output fs (warm content_of imports analyze sccs_of reach sdo_of
-                      (runs content_of imports analyze sccs_of reach sdo_of empty_store 0 h) fs o n)
-      = output fs (cold content_of imports analyze sccs_of reach sdo_of fs o n').
+      output fs (warm content_of imports probes analyze sccs_of reach sdo_of ign_of blocker
+                      (runs content_of imports probes analyze sccs_of reach sdo_of ign_of blocker empty_store 0 h) fs o n)
+      = output fs (cold content_of imports probes analyze sccs_of reach sdo_of ign_of blocker fs o n').
 End Statement.
 
 (* the edits of the property text, as transitions between file-system states *)
